@@ -662,3 +662,5 @@ def summarize(results, tier):
         "samples": samples[:5],
         "exhaustive": True,
     }
+
+RULE += ' Session 4: every helper also as the function of F.map over all inputs twice over; steps with mutable constant parameters on one long-lived pipeline evaluated repeatedly.'
